@@ -60,4 +60,10 @@ CLAIMED['C05'] = dict(
     technique='CrossHair-engine symbolic execution of the exporter with a symbolic category container (all 2^37 selections) + z3-enumerated include/exclude selections, composed with C11 SMT lemma',
     design='5 C05')
 
+CLAIMED['C03'] = dict(
+    text=BMC + 'C03: (a) Importer.run + dumps on SYMBOLIC cell text behind a stubbed spine importer returning each of kernpy\'s non-note token classes: every string is reproduced verbatim in place; (c2) the real exitBarline callback on symbolic barline-type/number strings; (b, b2, c, e) slot grids assembled from alphabets that the CURRENT parser classifies (core members unconditional) are exported and compared with the generator\'s own abstract cell description: durations, dots, grace marks, pitch letters, accidentals with display suffix, every accepted signifier in 4 positions, rests, chords, all barline forms, every tandem interpretation and text cell under 8 spine types; (d) grids of pool documents with inserted null rows / global comments.',
+    note=NOTE + 'ANTLR receives concrete text only: grammar coverage is the slot alphabets inside the stated slot bounds (solver-enumerated), payload coverage is the symbolic stub tier. Two open known findings (separator characters stripped from any token; hidden barlines dropped).',
+    technique='CrossHair-engine symbolic execution of Importer.run/exporter/listener callbacks on symbolic strings (stubbed parser) + z3-enumerated slot grids classified by the real parser, against an independent cell model',
+    design='5 C03')
+
 PENDING_REASON = 'check under construction in this session (to be claimed; see DESIGN.md section 5)'
